@@ -128,6 +128,11 @@ type Lens interface {
 	Components() map[string]string
 }
 
+// Assumer is implemented by lenses with assumptions worth repeating in the evidence.
+type Assumer interface {
+	Assumptions() []string
+}
+
 // PostChecker is implemented by lenses with checks that must run outside the bubble (porcupine).
 type PostChecker interface {
 	Post(res *Result)
@@ -295,4 +300,21 @@ func PanicClass(prop, stack string) string {
 		return prop + "/panic"
 	}
 	return prop + "/panic"
+}
+
+// NewSim creates the simulation of a run from its plan and makes it current.
+func NewSim(env *Env, obs func(t *rt.Task, op rt.Op, fault string), maxSteps int) *rt.Sim {
+	s := rt.New(rt.Config{Tape: env.Plan.Tape, Faults: env.Plan.Faults, KeepLog: env.KeepLog, Root: env.Dir,
+		Observer: obs, MaxSteps: maxSteps, Settle: synctest.Wait})
+	rt.Cur = s
+	return s
+}
+
+// ReportPanics turns panics recovered in tasks into violations.
+func ReportPanics(res *Result, s *rt.Sim, prop string) {
+	for _, t := range s.Tasks() {
+		if t.PanicVal != nil {
+			res.Violate(PanicClass(prop, t.PanicStack), fmt.Sprint(t.PanicVal), "panic in task %d (%s): %v\n%s", t.ID, t.Role, t.PanicVal, t.PanicStack)
+		}
+	}
 }
